@@ -33,7 +33,8 @@ func (c07) Meta() fw.Meta {
 			"all must agree with the predicate valid() written from the statement; accepted ones are created, synced, reopened and compared field by field with the bytes on disk. " +
 			"non-trivial = batch contained accepted and rejected candidates in every entry point; distinct by candidate set." +
 			" NewHeader/Create also receive the candidate list by other routes (prefix of a longer parsed list, parsed list extended, list of a header built before, backing array used by a shorter header); Header.TakeFrom also decodes into a receiver used for every earlier candidate." +
-			" Every 4th accepted header is also opened from a file padded beyond the size the layout needs; after every 2nd Create the caller reuses and overwrites its own slice before Sync and reopen.",
+			" Every 4th accepted header is also opened from a file padded beyond the size the layout needs; after every 2nd Create the caller reuses and overwrites its own slice before Sync and reopen." +
+			" Candidates include valid lists of 17-30 archives; after every rejected Create a well-formed layout is created at the same path at once.",
 		Assumptions: []string{
 			"a file of exactly 2^32 bytes (slots addressable, size needs 33 bits) is the only undecided value (counted as band_dontcare); larger files are invalid because slot offsets are computed in the format's 32-bit offset arithmetic",
 			"Open/TakeFrom are given headers with the offsets the format prescribes (low 32 bits when the true offset overflows)",
